@@ -209,7 +209,8 @@ func init() {
 		return func(g *Gen) *Scn {
 			sc := &Scn{Family: name}
 			sc.Sub = g.Pick("share", "share", "sharereplay", "connectable")
-			sc.SetInt("connector", g.Intn(4)) // publish, behavior, replay1, replay2
+			sc.SetInt("connector", g.Intn(6)) // publish, behavior, replay1, replay2, replay0, replay-unlimited
+			sc.SetInt("rbuf", g.PickInt(0, 1, 1, 2)) // ShareReplay's buffer size
 			sc.SetInt("rE", g.Intn(2))
 			sc.SetInt("rC", g.Intn(2))
 			sc.SetInt("rZ", g.Intn(2))
@@ -231,8 +232,8 @@ func init() {
 func runC11(e *Env) {
 	sc := e.Sc
 	src := e.NewSrc(sc.Sources[0])
-	kinds := []string{"publish", "behavior", "replay", "replay"}
-	bufs := []int{0, 0, 1, 2}
+	kinds := []string{"publish", "behavior", "replay", "replay", "replay", "replay"}
+	bufs := []int{0, 0, 1, 2, 0, -1}
 	ci := sc.Int("connector", 0)
 	m := &shareModel{kind: kinds[ci], buf: bufs[ci], cnt: map[int]int{}, joined: map[int]*subjState{}}
 	connector := func() ro.Subject[int] { return newSubject(kinds[ci], bufs[ci]) }
@@ -243,7 +244,7 @@ func runC11(e *Env) {
 		m.resetErr, m.resetCompl, m.resetZero = sc.Int("rE", 0) == 1, sc.Int("rC", 0) == 1, sc.Int("rZ", 0) == 1
 		shared = ro.ShareWithConfig(ro.ShareConfig[int]{Connector: connector, ResetOnError: m.resetErr, ResetOnComplete: m.resetCompl, ResetOnRefCountZero: m.resetZero})(src.Obs())
 	case "sharereplay":
-		m.kind, m.buf = "replay", bufs[ci]%2+1
+		m.kind, m.buf = "replay", sc.Int("rbuf", 1)
 		m.resetErr, m.resetCompl, m.resetZero = true, false, sc.Int("rZ", 0) == 1
 		shared = ro.ShareReplayWithConfig[int](m.buf, ro.ShareReplayConfig{ResetOnRefCountZero: m.resetZero})(src.Obs())
 	default:
